@@ -38,6 +38,21 @@ Fields == {"atoms", "cell", "cons", "lastPos", "lastCell", "lastMom", "lastE", "
 
 Diff(exp, o) == {f \in Fields : exp[f] # o[f]}
 
+(* The statement fixes which atoms share a label, that labels present before are kept, that a configured default
+   is used and that negative labels stay negative -- not the NUMBER a fresh label gets.  Two label arrays are
+   equivalent when they agree on every label that existed before (or is the configured default) and induce the
+   same partition otherwise. *)
+LabelsEquiv(before, defLab, e, o) ==
+    /\ Len(e) = Len(o)
+    /\ \A i \in 1..Len(e) :
+          /\ ((e[i] \in QRange(before) \/ e[i] = defLab) => o[i] = e[i])
+          /\ ((o[i] \in QRange(before) \/ o[i] = defLab) => o[i] = e[i])
+          /\ (e[i] >= 0 <=> o[i] >= 0)
+    /\ \A i, j \in 1..Len(e) : (e[i] = e[j]) <=> (o[i] = o[j])
+AllLabelsEquiv(setup, s0, exp, o) ==
+    /\ DOMAIN exp.labels = DOMAIN o.labels
+    /\ \A m \in DOMAIN exp.labels : LabelsEquiv(s0.labels[m], setup.mobj[m].defLabel, exp.labels[m], o.labels[m])
+
 Report(kind, what) ==
     LET e == Traces[tid].ev[l + 1]      \* the event being judged
     IN PrintT("@@" \o ToJson([tid |-> tid, l |-> l + 1, a |-> e.a, name |-> e.name,
@@ -88,6 +103,7 @@ Step ==
            d == IF e.a = "raise" THEN {}
                 ELSE IF e.a = "yield" THEN Diff(exp, o) \ {"presel"}
                 ELSE IF e.a = "call" /\ setup.fixcom /\ o.calcAtoms = Cfg(o) THEN Diff(exp, o) \ {"calcAtoms"}
+                ELSE IF e.a = "end" /\ e.verdict = "acc" /\ AllLabelsEquiv(setup, s, exp, o) THEN Diff(exp, o) \ {"labels"}
                 ELSE Diff(exp, o)
            \* --- protocol: order of the calls the driver makes ------------
            order == CASE e.a = "yield" -> pc = "idle"
